@@ -1,5 +1,6 @@
 import ArrProofs.Lemmas.C07
 import ArrProofs.Lemmas.GenCore
+import ArrProofs.Lemmas.GenCoreAxis
 /-!
 # C07 — reshaping operations never reorder, drop or invent elements
 
@@ -533,5 +534,34 @@ theorem gen_create_eq (elems : List α) (shape : List Nat) (ndmin : Option Nat) 
 example : ArrModel.Gen.Core.Array_reshape (⟨[1, 2, 3, 4, 5, 6], [2, 3]⟩ : Arr Nat) [3, 2] = .ok ⟨[1, 2, 3, 4, 5, 6], [3, 2]⟩ := by decide
 example : ArrModel.Gen.Core.Array_resize (⟨[1, 2, 3], [3]⟩ : Arr Nat) [2, 4] = .ok ⟨[1, 2, 3, 1, 2, 3, 1, 2], [2, 4]⟩ := by decide
 example : ArrModel.Gen.Core.Array_atleast (⟨[1, 2, 3], [3]⟩ : Arr Nat) 3 = .ok ⟨[1, 2, 3], [1, 3, 1]⟩ := by decide
+
+/-! ### `expand_dims`, `squeeze` as translated from `src/core/operations/axis.rs` (phase 2) -/
+
+open ArrModel.Gen.Core in
+/-- **expand_dims (translated source)** keeps the element list -/
+theorem gen_expand_dims_elems (a r : Arr α) (axes : List Int) (h : Array_expand_dims a axes = .ok r) : r.elems = a.elems := by
+  rw [expand_dims_eq] at h; exact expandDims_elems a r axes h
+
+open ArrModel.Gen.Core in
+/-- … and on a well-formed array is the spec'd success or `AxisOutOfBounds`, never a panic -/
+theorem gen_expand_dims_total (a : Arr α) (axes : List Int) (hwf : a.WF) :
+    (∃ r, Array_expand_dims a axes = .ok r) ∨ Array_expand_dims a axes = .err .AxisOutOfBounds := by
+  rw [expand_dims_eq]; exact expandDims_total a axes hwf
+
+open ArrModel.Gen.Core in
+/-- **squeeze (translated source)** keeps the element list -/
+theorem gen_squeeze_elems (a r : Arr α) (axes : Option (List Int)) (h : Array_squeeze a axes = .ok r) : r.elems = a.elems := by
+  rw [squeeze_eq] at h; exact squeeze_elems a r axes h
+
+open ArrModel.Gen.Core in
+theorem gen_squeeze_none_shape (a : Arr α) (hwf : a.WF) :
+    Array_squeeze a none = .ok ⟨a.elems, a.shape.filter (fun d => d != 1)⟩ := by
+  rw [squeeze_eq]; exact squeeze_none_shape a hwf
+
+open ArrModel.Gen.Core in
+theorem gen_squeeze_total (a : Arr α) (axes : Option (List Int)) (hwf : a.WF) : Array_squeeze a axes ≠ .panic := by
+  rw [squeeze_eq]; exact squeeze_total a axes hwf
+
+example : ArrModel.Gen.Core.Array_squeeze (⟨[1, 2, 3], [1, 3, 1]⟩ : Arr Nat) none = .ok ⟨[1, 2, 3], [3]⟩ := by decide
 
 end ArrModel.C07
